@@ -19,6 +19,8 @@ namespace BitSerializer
 		{
 			if constexpr (TArchive::IsLoading())
 			{
+				// A bit that is not loaded (null, skipped by policy) keeps its value, it must not take the value of the previous bit
+				value = cont.test(i);
 				Serialize(archive, value);
 				cont.set(i, value);
 			}
